@@ -434,6 +434,8 @@ func main() {
 		c17Main(r)
 	case "C19":
 		c19Main(r)
+	case "C08":
+		c08mMain(r)
 	default:
 		hx.EngineError("unknown -prop %s", *prop)
 	}
